@@ -261,7 +261,7 @@ func (file *File) Update(time int, pos int, insLength int, delLength int) {
 		}
 		// have to adjust origin in case insLength == 0
 		if origin.Key > uint32(pos) {
-			origin.Key = uint32(int(origin.Key) + delta)
+			origin.Key = uint32(internal.Max(int(origin.Key)+delta, 0))
 		}
 	}
 
